@@ -543,9 +543,10 @@ pub fn c05_fix() -> Fix {
             req_pairs.push((t, a));
         }
     }
-    // responses: keys of every valid token the attacker owns, from both addresses
+    // responses: keys of every token the attacker owns (the invalid ones too: foreign key, foreign protocol id,
+    // wrong host list — if the server ever challenges one of those, the attacker can answer), from both addresses
     let mut resp_pairs = vec![];
-    for k in [0usize, 1, 2, 3, 8, 9] {
+    for k in [0usize, 1, 2, 3, 4, 5, 6, 8, 9] {
         for a in 0..2 {
             resp_pairs.push((k, a));
         }
